@@ -3,11 +3,12 @@ package main
 func init() {
 	plans["C10"] = Plan{
 		Jobs:  []Job{{Workload: "C10.seq", Mode: "plain", QuickB: 12, ThoroughB: 12}, {Workload: "C10.order", Mode: "plain", QuickB: 4, ThoroughB: 4},
+			{Workload: "C10.codegc", Mode: "plain", QuickB: 4, ThoroughB: 8},
 			{Workload: "C10.race", Mode: "race", QuickB: 4, ThoroughB: 8, ThoroughT: 5400}},
 		Level: "exploration",
-		Rule: "C10.race (race detector build): after a generated prefix a Copy is taken mid-transaction / after Finalise / after IntermediateRoot / right after commit+reopen; one goroutine continues on the original (ops, IntermediateRoot, Commit) while another reads the copy through every getter, modifies and commits it; any DATA RACE report is a violation. C10.seq: PRNG-generated op sequences (accounts, validators in production calling patterns, delegations, withdraw queue, staking records) with commit+reopen points (fresh state.Database over the same disk store: live getters vs reopened getters, trie enumeration warm vs fresh, no dangling storage/code/delegation blob) and copy points (copy == original at copy time; original mutated => copy unchanged; copy mutated => original unchanged; copy committed + reopened == its live view). C10.order: a generated target content written by 3 (thorough: 6) schedules that permute commuting writes, regroup across Finalise/IntermediateRoot/Commit+reopen, overwrite and create-delete-recreate: all schedules must give the same three roots. distinct_nontrivial = distinct (commit count, copy count, validators, queue length) resp. content-size signatures.",
+		Rule: "C10.codegc: tiny alphabet (three contract accounts, two byte codes deployed again and again; deploy / self-destruct / commit in place + reference the roots / release the oldest referenced root before it reached disk / read an older root through the shared Database / flush + reopen through a fresh Database): every referenced root and the flushed state must yield exactly the committed code. C10.race (race detector build): after a generated prefix a Copy is taken mid-transaction / after Finalise / after IntermediateRoot / right after commit+reopen; one goroutine continues on the original (ops, IntermediateRoot, Commit) while another reads the copy through every getter, modifies and commits it; any DATA RACE report is a violation. C10.seq: PRNG-generated op sequences (accounts, validators in production calling patterns, delegations, withdraw queue, staking records) with commit+reopen points (fresh state.Database over the same disk store: live getters vs reopened getters, trie enumeration warm vs fresh, no dangling storage/code/delegation blob) and copy points (copy == original at copy time; original mutated => copy unchanged; copy mutated => original unchanged; copy committed + reopened == its live view). C10.order: a generated target content written by 3 (thorough: 6) schedules that permute commuting writes, regroup across Finalise/IntermediateRoot/Commit+reopen, overwrite and create-delete-recreate: all schedules must give the same three roots. distinct_nontrivial = distinct (commit count, copy count, validators, queue length) resp. content-size signatures.",
 		Explanation: "held = no reopen/copy/independence/root disagreement on the executions of this run",
 		Assumptions: []string{"the digest enumerates the live object through its exported getters over the universe of names the harness used, and the tries node by node through state.Database", "per-transaction observables (logs, refund, preimages, suicide marks) are excluded from the reopen comparison by design"},
-		Require:     map[string]int64{"commits_reopened": 2000, "copies": 2000, "copies_committed": 500, "schedules": 3000, "concurrent_copy_runs": 150},
+		Require:     map[string]int64{"commits_reopened": 2000, "copies": 2000, "copies_committed": 500, "schedules": 3000, "concurrent_copy_runs": 150, "codegc_roots_released": 500, "codegc_flushes": 500},
 	}
 }
